@@ -1,6 +1,7 @@
 """C09 - Riemann and burn-time solutions respect mirror, Galilean and rigid symmetry."""
 import json
 import flow
+import burn_corr as BC
 import harness as H
 import riemann_corr as RC
 import riemann_oracles as RO
@@ -8,6 +9,7 @@ import riemann_oracles as RO
 UNITS = [
     flow.Unit('riemann-igeos', groups=['riemann'], props=['props/C09_riemann.v'],
               custom_corr=RC.unit_corr, oracle=RO.sym_oracle(('mirror', 'boost'))),
+    flow.Unit('burn-times', groups=[], props=['props/C09_burn.v'], custom_corr=BC.unit_corr, oracle=BC.oracle),
 ]
 
 
